@@ -160,6 +160,12 @@ def case_ledger(col, p):
             return buf[..., ::2]
         return a.copy()
     try:
+        if p.get('prehistory_grid'):
+            # another grid with the same number of points was integrated on earlier in this process (constant parameters, all free)
+            xx0 = space.grid(p['prehistory_grid'], G, p['seed'])
+            kw0 = kwargs_for(d, nus, gammas, hs, mig, theta0, [False] * d, None, False)
+            driver(d)(np.ones(shape), xx0, 2.5 * min(dts), **kw0)
+            col.tick(transitions=1)
         inputs = [('zero', np.zeros(shape))]
         rng = np.random.RandomState(p['seed'] + 7)
         inputs.append(('dense', rng.uniform(0.1, 1.0, size=shape)))
@@ -223,7 +229,7 @@ def case_ledger(col, p):
                             col.violation('C04:remove_pop:not_the_marginal', dict(info, removed=k + 1),
                                           {'maxerr': float(np.abs(lib - own).max()) if lib.shape == own.shape else 'shape'})
                     if d >= 3:
-                        for keep in itertools.combinations(range(d), d - 2):
+                        for keep in [kp for size in range(1, d - 1) for kp in itertools.combinations(range(d), size)]:
                             lib = np.asarray(PM.filter_pops(out.copy(), xx, [q + 1 for q in keep]))
                             own = marginal(out, w, list(keep))
                             col.tick(transitions=1)
@@ -416,6 +422,10 @@ def run(ctx):
                 # interior grid points within 1e-6 of the end points (any default grid of 600+ points has them): they are interior
                 cases.append({'kind': 'ledger', 'd': d, 'G': G, 'grid': 'N', 'seed': seed, 'nus': nuB, 'gammas': sel[1][0], 'hs': sel[1][1],
                               'theta0': 1.5, 'tf': 1e-3, 'steps': 3, 'frozen': frozen, 'nomut': None, 'mig': mig, 'units': (0, chunk)})
+            if d <= 3 and any(frozen) and not all(frozen):
+                cases.append({'kind': 'ledger', 'd': d, 'G': G, 'grid': 'D', 'seed': seed, 'nus': nuB, 'gammas': sel[1][0], 'hs': sel[1][1],
+                              'theta0': 1.5, 'tf': 1e-3, 'steps': 3, 'frozen': frozen, 'nomut': None, 'mig': mig, 'units': (0, min(chunk, 9)),
+                              'prehistory_grid': 'U'})
             if not all(frozen):
                 # sizes that change in time: the drivers re-size the step from the current sizes at every step
                 cases.append({'kind': 'ledger', 'd': d, 'G': G, 'grid': 'D', 'seed': seed, 'nus': nuA, 'gammas': sel[1][0], 'hs': sel[1][1],
